@@ -102,6 +102,15 @@ theorem noUO_revMeta {S : Schema} {n n' : DNode} {a b : String} (h : revMeta n a
     · cases h; simp [noUO_setMetas]
   · cases h
 
+theorem noUO_revPos {S : Schema} {n n' : DNode} (h : revPos n = .ok n') : uoFreeN S n' = uoFreeN S n := by
+  unfold revPos at h
+  split at h
+  · unfold revPosition at h
+    split at h
+    · cases h; simp [noUO_setMetas]
+    · cases h
+  · exact noUO_revMeta h
+
 theorem noUO_revReplace {S : Schema} {n n' : DNode} (h : revReplace S n = .ok n') : uoFreeN S n' = uoFreeN S n := by
   unfold revReplace at h
   split at h
@@ -115,10 +124,10 @@ theorem noUO_revReplace {S : Schema} {n n' : DNode} (h : revReplace S n = .ok n'
     | ok n1 =>
       simp only [hv, Except.bind] at h
       split at h
-      · rw [noUO_revMeta h, noUO_revDefault hv]
+      · rw [noUO_revPos h, noUO_revDefault hv]
       · rw [noUO_revMeta h, noUO_revDefault hv]
   · split at h
-    · exact noUO_revMeta h
+    · exact noUO_revPos h
     · exact noUO_revMeta h
   · cases h
 
